@@ -28,9 +28,16 @@ def is_table(d):
 
 
 class Program:
-    def __init__(self, repo="/repo", missing=()):
+    def __init__(self, repo="/repo", missing=(), mode=None):
+        """mode: None = the default interpreter; "-O" = assert statements removed; "-W error" = warnings.warn raises;
+        "-bb" = comparing bytes with str raises BytesWarning"""
+        mode = mode if mode is not None else os.environ.get("PYSCSI_SA_MODE") or None
+        self.mode = mode
         self.repo = os.path.abspath(repo)
         self.I = Interp(self.repo)
+        self.I.strip_asserts = (mode == "-O")
+        self.I.warnings_raise = (mode == "-W error")
+        self.I.bytes_warning = (mode == "-bb")
         self.I.missing_modules = set(missing)
         self.module_names = []
         pkg = os.path.join(self.repo, "pyscsi")
